@@ -85,4 +85,10 @@ META = {
         "level_text": "Histories of sender calls and responses are judged against the harness's complete log of what was written, so the oracle is sound for any eviction policy; boundedness is asserted behaviourally; the notify cache is probed with lookups between notifies (205 enumerated scenarios plus generated ones); uniqueness of counters under concurrent use on 8-16 goroutines.",
         "level_note": "Trusted: capture writer order as issue order for non-overlapping calls. Concurrent failures are not shrinkable (the message carries both colliding datagrams).",
     },
+    "C01": {
+        "technique": "property-based testing (rapid state machine) over the classifier x function x ack x destination matrix with a validity predicate on the complete outbound trace plus acceptance-consistency checks",
+        "design_ref": "DESIGN.md §4 C01",
+        "level_text": "Sequences of datagrams from two peers against randomly configured local devices; after every datagram all connections are drained and every reply/result is checked for reference, destination, source (local device address + addressed entity/feature), connection, and the number of responses prescribed by the classifier rules; reads of announced readable functions must return the stored data; acceptance is checked for consistency with the observable effect rather than predicted.",
+        "level_note": "Trusted: canonical JSON equality for payloads; the harness's notion of well-formed datagram. Asynchronous approval outcomes are C12's subject (no approval callbacks here).",
+    },
 }
